@@ -229,6 +229,14 @@ CLAIMS = {
               "directions differ between the builds (operator ties decided by the last bit).")),
 }
 
+EXTRA = {
+    "C10": " The public raytrace method is exercised too (explicit step sizes with the default budget, shifted origins, lists). "
+           "Known finding: with an explicit step below about a quarter of a cell the ray may never come within one step of the "
+           "source and RuntimeError is raised in homogeneous equal-spacing models.",
+    "C05": " Known finding: Big = 1e5 acts as infinity, so unit changes that push times towards 1e5 break the scaling.",
+    "C18": " A genuine 2D defect of this kind (west loop of the source-row initialisation reading the wrong row) was found by this "
+           "check and repaired (fix: c3ba698).",
+}
 TIEC_FULL = {"C01", "C02", "C04", "C05", "C06", "C09", "C14", "C16", "C18"}
 TIEC_STRUCT = {"C07", "C11"}
 TIEC_SOLVER = {"C03", "C13"}
@@ -257,6 +265,7 @@ def main():
             c["technique"] += " + theorems proved directly about the sweep kernels re-translated from the source into Lean on every run"
             c["text"] += (" In addition the body of `sweep` (2D, 3D) is re-translated from /repo's source into a Lean definition on every "
                           "run and the structural fact the property needs is proved directly about that definition, with no hypotheses.")
+        c["text"] += EXTRA.get(p, "")
         checks.append({
             "property_id": p,
             "quick_cmd": f"/venv/bin/python harness/check.py {p} --tier quick",
